@@ -343,6 +343,16 @@ theorem c16_sufficient_limiter_handler (u : Upstream) (c : Cluster) : ∃ u', up
   let ⟨u', h, _⟩ := upstreamConditionHandler_ok u c
   ⟨u', h⟩
 
+/-- terms of the limiter server: when a replica starts leading the shard again (leadership lost and regained,
+    fail-over, restart) its store has no flow controls - the API-backed store restores the CONDITIONS the previous
+    leader flushed (`persist = true`, any `u`), the local store nothing - and the handler it runs for the accepted object
+    succeeds and re-creates every global limiter with the configured kind and numbers, whatever was restored
+    (in particular a restored `.state` condition that already equals the object's limits) -/
+theorem c16_limiter_takeover (env : Env) (known : List Known) (c : Cluster) (h : validate env known c = .ok [])
+    (persist : Bool) (u : Upstream) :
+    ∃ u', upstreamConditionHandler (newTerm persist u) c = .ok u' ∧ u'.flowControls = globalEntries c.schemas :=
+  handler_after_takeover env known c ((c16_accepts_iff_valid env known c).mp h) persist u
+
 /-- no `uint32` wrap-around: a cluster created from an accepted object (whose numbers are `int32` values) has exactly
     one limiter per schema, of the configured kind and with exactly the configured numbers, and no remote limiter -/
 theorem c16_created_limiters (env : Env) (henv : EnvOK env) (known : List Known) (c : Cluster)
